@@ -44,7 +44,7 @@ PROPS = {
     "C04": dict(suites=[("parse", 5, 4, 7, 16), ("dup", 1, 4, 2, 4), ("groups", 100, 4, 1500, 16), ("regs", 1, 4, 2, 8)], corr=["parse", "search", "display"], oracles=["C04", "C11", "C01", "C02", "C03"]),
     "C05": dict(suites=[("hist", 100, 4, 1500, 16), ("orders", 1, 4, 4, 16), ("splitopt", 1, 4, 2, 16)], corr=["search", "display"], oracles=["FUN"]),
     "C06": dict(suites=[("hist", 100, 4, 1500, 16), ("scope", 4, 8, 6, 16), ("splitopt", 1, 4, 2, 16), ("sibs", 1, 4, 3, 16)], corr=["search"], oracles=["C06", "C02"]),
-    "C07": dict(suites=[("parse", 5, 4, 7, 16), ("junk", 100, 4, 1500, 16), ("hist", 50, 4, 1500, 16), ("family", 50, 4, 1500, 16), ("regs", 1, 4, 2, 8)], corr=["checked", "parse"], oracles=["C07"]),
+    "C07": dict(suites=[("parse", 5, 4, 7, 16), ("junk", 100, 4, 1500, 16), ("hist", 50, 4, 1500, 16), ("family", 50, 4, 1500, 16), ("regs", 1, 4, 2, 8), ("dup", 1, 4, 2, 8)], corr=["checked", "parse"], oracles=["C07"]),
     "C08": dict(suites=[("hist", 100, 4, 1500, 16), ("dup", 1, 4, 2, 8), ("pairs", 1, 4, 2, 16)], corr=["insert", "search"], oracles=["C08", "C02"]),
     "C09": dict(suites=[("hist", 100, 4, 1500, 16), ("dup", 1, 4, 2, 8), ("family", 50, 4, 1500, 16), ("pairs", 1, 4, 2, 16), ("clonescope", 1, 4, 2, 16)], corr=["delete", "search", "display"], oracles=["C09", "C01", "C02", "FUN"]),
     "C10": dict(suites=[("hist", 100, 4, 1500, 16), ("dup", 1, 4, 2, 8)], corr=["insert", "delete", "search", "display"], oracles=["FUN", "C09"]),
